@@ -17,7 +17,7 @@ HANDLERS = ["no exception handler", "handler returns True", "handler returns Fal
 
 
 def cfg(tier):
-    return (1, 6) if tier == "quick" else (2, 7)
+    return (1, 6) if tier == "quick" else (2, 5)
 
 
 def params(tier):
@@ -252,7 +252,7 @@ H = Harness(
     title="tasks spawned through a TaskFactory from different sites, with every outcome, handler verdict and owner teardown while tasks run",
     bound_text=lambda tier: f"1-2 tasks x {{start_task, start_task_soon}} x outcome{{" + "; ".join(OUTCOMES) + "} x spawned from {"
     + "; ".join(SITES) + "} x " + "/".join(HANDLERS) + " x owner root-level/nested x factory started by the shortcut / by the owner's method from inside another nested context; every task has an async teardown callback in its own context; observer after EVERY scheduler step; late spawns after teardown; FIFO with "
-    + ("one deviation within 6 decisions; the second task only returns / keeps running / raises" if tier == "quick" else "two deviations (each within 7 decisions), all outcomes for both tasks"),
+    + ("one deviation within 6 decisions; the second task only returns / keeps running / raises" if tier == "quick" else "two deviations (each within 5 decisions), all outcomes for both tasks"),
     oracle="task context's parent chain = factory context -> owner, never the spawner's; tasks see exactly the resources present when the factory "
     "started; at every scheduler step: running tasks are in all_task_handles(), tasks whose wait_finished() returned are not, no foreign handles; "
     "wait_finished() returns for every outcome and only after the task's own context has been torn down; cancel() affects only its task; leaving the owner waits for running tasks (none sees a "
